@@ -103,6 +103,33 @@ func startServers(sc *script) (addrs []string, stop func()) {
 	}
 }
 
+// remoteConfigStorage: a metric journal that only holds the agents' remote config metric (its description is the config)
+type remoteConfigStorage struct {
+	*metajournal.MetricsStorage
+	description string
+}
+
+func (s *remoteConfigStorage) GetMetaMetricByName(metricName string) *format.MetricMetaValue {
+	if metricName == format.StatshouseAgentRemoteConfigMetric && s.description != "" {
+		return &format.MetricMetaValue{Name: metricName, Description: s.description}
+	}
+	return s.MetricsStorage.GetMetaMetricByName(metricName)
+}
+
+// makeAgentRemote: an agent (or an aggregator's built-in agent) whose configuration arrives through the real path:
+// MakeAgent -> updateRemoteConfig -> Config.updateFromRemoteDescription of the remote config metric
+func makeAgentRemote(addrs []string, component int32, description string) *agent.Agent {
+	cfg := agent.DefaultConfig()
+	mc, _ := pcache.LoadMappingsCacheFile(nil, 1<<20, 86400)
+	res := tlstatshouse.GetConfigResult3{Addresses: addrs, ShardByMetricCount: 1}
+	a, err := agent.MakeAgent("tcp4", "", "", nil, cfg, "verif-host", component,
+		&remoteConfigStorage{MetricsStorage: metajournal.MakeMetricsStorage(nil), description: description}, mc, nil, nil, func(string, ...any) {}, nil, &res, nil)
+	if err != nil {
+		panic(err)
+	}
+	return a
+}
+
 func makeAgent(cacheDir string, addrs []string) *agent.Agent {
 	cfg := agent.DefaultConfig()
 	mc, _ := pcache.LoadMappingsCacheFile(nil, 1<<20, 86400)
